@@ -934,7 +934,8 @@ def check_history(lab, h, tag, configs, stream="history"):
             r.disagree("verdict", dict(tag=tag), "history ran", f"driver said {rep[:200]}")
         else:
             flags = mm.group(1).split(",")
-            bad_i = {f["i"] for f in fails if f["kind"] == "history"}
+            # the history model says nothing about thread races: compare its verdict with the 1-thread session only
+            bad_i = {f["i"] for f in fails if f["kind"] == "history" and f["threads"] == configs[0]}
             for pos, flag in zip(idx, flags):
                 if pos in fresh:
                     r.tag("model-says-same" if flag == "1" else "model-says-may-differ")
